@@ -11,6 +11,7 @@
    Statements only; definitions and proofs are in Proofs/V2000Render.v. *)
 From Coq Require Import String Permutation.
 Require Import Base Mol Text Molfile V2000 V2000Render.
+Require ParamsSpec.   (* regenerated source constants still match what the model hard-codes *)
 Require Params Writer V3000.
 
 (* ---- 1. fixed-width fields ---- *)
